@@ -24,9 +24,8 @@ NOTE = ("FINDINGS (all reproduced natively, fixed in /repo): (1) UNIX_SOCKET URI
         "path '/run/control.sock' (fixes/C28-unixsocket-path); (2) IPvFuture grammar: '[v8.]' accepted, '[V1.o]' refused (fixes/C28-ipvfuture-grammar); (3) setters + join "
         "wrote URIs that parse into different components: port > 65535, path '//x' or 'a:b' without authority/scheme, userinfo/port without host, unix socket with ':' / '@' "
         "/ relative path / host (fixes/C28-join-roundtrip). The obligations unix, split_auth, set_noauth, set_qf, set_nohost, set_bigport, set_unix fail on the "
-        "tree before those commits. (4) PENDING: under EVHTTP_URI_UNIX_SOCKET a setter-built host 'unix' with a port joins into '//unix:8/p', which parses as the "
-        "unix-socket form and is refused (fixes/C28-join-host-named-unix); until that patch is in the tree host_seq assumes that one combination away (KF_EXCLUDE_HOST_NAMED_UNIX, "
-        "switched off automatically when the fix is found in http.c). A path that was never set (NULL) compares equal to the parsed empty path. Port 65535 is the largest accepted (implementation limit, "
+        "tree before those commits. (4) under EVHTTP_URI_UNIX_SOCKET a setter-built host 'unix' with a port joined into '//unix:8/p', which parses as the "
+        "unix-socket form (fixes/C28-join-host-named-unix; host_seq fails without it). A path that was never set (NULL) compares equal to the parsed empty path. Port 65535 is the largest accepted (implementation limit, "
         "RFC 3986 has *DIGIT). Trusted: cbmc, env/http_fmt.h, env/http_stralloc.h, env/evbuf_contract*.h, ref/rfc3986_ref.h, the IPv6 oracle.")
 ASSUMPTIONS = ["allocation does not fail", "evbuffer API behaves as documented (contract model, property C12)",
                "evutil_inet_pton(AF_INET6) is a deterministic function of its text that accepts only texts over HEXDIG ':' '.' of length >= 2 (property C40)",
@@ -63,15 +62,6 @@ def setters_ob(name, ks=-1, ku=-1, kh=-1, kx=-1, kp=-1, kq=-1, kf=-1, port=None,
     return dict(name=name, harness="C28_uri.c", entry="harness_setters", defines=d, unwind=J + 3, unwindset=us,
                 cbmc=["--object-bits", "10"], solver=solver, timeout=timeout, mem_gb=mem, desc=desc)
 
-def _host_named_unix_fixed():
-    """fixes/C28-join-host-named-unix.diff present in the tree under test?  (until it is, host_seq excludes that one combination)"""
-    import os
-    repo = os.environ.get("VERIF_REPO", "/repo")
-    try:
-        return "not name the host \"unix\"" in open(os.path.join(repo, "http.c"), errors="replace").read()
-    except OSError:
-        return False
-
 def obligations(tier):
     q = tier == "quick"
     RT, SP = ["VP_ONLY_ROUNDTRIP"], ["VP_ONLY_SPLIT"]
@@ -89,7 +79,7 @@ def obligations(tier):
         parse_ob("unix", nu, prefix="//unix:", flags=8, extra=["VP_WIT_UNIX"] + (["VP_NO_WIT_QF", "VP_ONLY_SPLIT"] if q else []), timeout=T, mem=3 if q else 5,
                  desc="components%s: '//unix:' + any string <= %d bytes, UNIX_SOCKET" % ("" if q else " + parse-join-parse", nu)),
         dict(setters_ob("join_limit", kh=1 if q else 2, kp=2 if q else 3, kq=-1 if q else 1, flags=1, timeout=T, desc="evhttp_uri_join size limit: host, path%s set through the setters, any limit up to the buffer size" % ("" if q else ", query")), entry="harness_join_limit", unwind=12 if q else 18),
-        dict(setters_ob("host_seq", kh=4, kp=2, port=(8, 8), timeout=T, extra=["VP_KH2=4", "VP_WIT_V6"] + ([] if _host_named_unix_fixed() else ["KF_EXCLUDE_HOST_NAMED_UNIX"]),
+        dict(setters_ob("host_seq", kh=4, kp=2, port=(8, 8), timeout=T, extra=["VP_KH2=4", "VP_WIT_V6"],
                         desc="host replaced on a URI that already has one: first host from parse('//[::]:8/p') or set_host(<=4 bytes), then set_host(<=4 bytes or NULL), join, parse; all 8 flag combinations"),
              entry="harness_host_seq"),
         setters_ob("set_noauth", ks=1, kp=3, extra=["VP_WIT_REL"], timeout=T, desc="setters+join, no authority: scheme<=1, path<=3 bytes, all flags"),
